@@ -202,3 +202,189 @@ Section CollectTotal.
     split; [constructor|]. split; intros m; intros; contradiction.
   Qed.
 End CollectTotal.
+
+(* ---------- nesting height of fields, fragments expanded ---------- *)
+Lemma xv_sels_depth_in y sub : In y sub -> (xv_sel_depth y <= xv_sels_depth sub)%nat.
+Proof.
+  unfold xv_sels_depth. induction sub as [|z r IH]; intros H; [destruct H|]. cbn [fold_right]. destruct H as [<-|H]; [lia|].
+  specialize (IH H). lia.
+Qed.
+
+Lemma xv_sel_depth_field a n args dirs sub : xv_sel_depth (SField a n args dirs sub) = S (xv_sels_depth sub).
+Proof. reflexivity. Qed.
+Lemma xv_sel_depth_inline c dirs sub : xv_sel_depth (SInline c dirs sub) = S (xv_sels_depth sub).
+Proof. reflexivity. Qed.
+
+Section Height.
+  Variable frags : list (str * xv_frag).
+
+  (* every chain of nested fields below the selection, spreads followed, has at most n fields *)
+  Inductive xh_le : nat -> selection -> Prop :=
+  | xh_field n a nm args dirs sub : xh_les n sub -> xh_le (S n) (SField a nm args dirs sub)
+  | xh_spread n nm dirs : (forall f, xv_assoc nm frags = Some f -> xh_les n (xv_frag_sels f)) -> xh_le n (SSpread nm dirs)
+  | xh_inline n c dirs sub : xh_les n sub -> xh_le n (SInline c dirs sub)
+  with xh_les : nat -> list selection -> Prop :=
+  | xh_nil n : xh_les n []
+  | xh_cons n x r : xh_le n x -> xh_les n r -> xh_les n (x :: r).
+
+  Scheme xh_le_min := Minimality for xh_le Sort Prop
+    with xh_les_min := Minimality for xh_les Sort Prop.
+
+  Lemma xh_les_forall n l : xh_les n l <-> Forall (xh_le n) l.
+  Proof.
+    split.
+    - intros H. induction l as [|x r IH]; [constructor|]. inversion H; subst. constructor; [assumption|apply IH; assumption].
+    - intros H. induction H as [|x r Hx _ IH]; constructor; assumption.
+  Qed.
+
+  Lemma xh_les_in n l x : xh_les n l -> In x l -> xh_le n x.
+  Proof. intros H. apply xh_les_forall in H. rewrite Forall_forall in H. apply H. Qed.
+
+  Lemma xh_field_inv n a nm args dirs sub : xh_le n (SField a nm args dirs sub) -> exists n', n = S n' /\ xh_les n' sub.
+  Proof. intros H. inversion H; subst. eexists. split; [reflexivity|assumption]. Qed.
+  Lemma xh_spread_inv n nm dirs : xh_le n (SSpread nm dirs) -> forall f, xv_assoc nm frags = Some f -> xh_les n (xv_frag_sels f).
+  Proof. intros H. inversion H; subst. assumption. Qed.
+  Lemma xh_inline_inv n c dirs sub : xh_le n (SInline c dirs sub) -> xh_les n sub.
+  Proof. intros H. inversion H; subst. assumption. Qed.
+
+  Hypothesis Hac : xf_acyclic frags.
+  Variable M : nat.
+  Hypothesis HM : forall n f, xv_assoc n frags = Some f -> (xv_sels_depth (xv_frag_sels f) <= M)%nat.
+
+  (* with k more fragments that can still be entered and selections written at most delta deep *)
+  Definition xh_Q (k : nat) : Prop :=
+    forall path sels delta n, xf_path_ok frags path (xv_spreads sels) -> (length frags <= length path + k)%nat ->
+      (xv_sels_depth sels <= delta)%nat -> (k * S M + delta <= n)%nat -> xh_les n sels.
+
+  Lemma xh_step k : (k = O \/ exists k', k = S k' /\ xh_Q k') -> xh_Q k.
+  Proof.
+    intros Hk path sels delta n Hp Hlen Hd Hn. apply xh_les_forall. apply Forall_forall. intros x Hx.
+    assert (Hpx : xf_path_ok frags path (xv_sel_spreads x)).
+    { apply (xf_path_sub frags path (xv_spreads sels)); [|exact Hp]. intros m Hm. unfold xv_spreads. apply in_flat_map. exists x. auto. }
+    assert (Hdx : (xv_sel_depth x <= delta)%nat) by (pose proof (xv_sels_depth_in x sels Hx); lia).
+    clear Hx Hp Hd. revert delta n Hpx Hdx Hn.
+    induction x as [a nm args dirs sub IHx|nm dirs|c dirs sub IHx] using selection_ind_nested; intros delta n Hpx Hdx Hn.
+    - rewrite xv_sel_depth_field in Hdx. destruct delta as [|delta]; [lia|]. destruct n as [|n]; [lia|].
+      apply xh_field. apply xh_les_forall. apply Forall_forall. intros y Hy. rewrite Forall_forall in IHx.
+      apply (IHx y Hy delta n).
+      + apply (xf_path_sub frags path (xv_sel_spreads (SField a nm args dirs sub))); [|exact Hpx].
+        intros m Hm. cbn [xv_sel_spreads]. apply in_flat_map. exists y. auto.
+      + pose proof (xv_sels_depth_in y sub Hy). lia.
+      + lia.
+    - apply xh_spread. intros f Ef.
+      pose proof (xf_path_enter frags Hac path _ nm f Hpx (or_introl eq_refl) Ef) as Hp'.
+      pose proof (xf_path_len frags _ _ Hp') as Hl'. rewrite app_length in Hl'. cbn [length] in Hl'.
+      destruct Hk as [->|(k' & -> & HQ)]; [lia|].
+      apply (HQ (path ++ [nm]) (xv_frag_sels f) M n Hp').
+      + rewrite app_length. cbn [length]. lia.
+      + exact (HM nm f Ef).
+      + cbn [Nat.mul] in Hn. lia.
+    - rewrite xv_sel_depth_inline in Hdx. apply xh_inline. apply xh_les_forall. apply Forall_forall. intros y Hy.
+      rewrite Forall_forall in IHx. apply (IHx y Hy delta n).
+      + apply (xf_path_sub frags path (xv_sel_spreads (SInline c dirs sub))); [|exact Hpx].
+        intros m Hm. cbn [xv_sel_spreads]. apply in_flat_map. exists y. auto.
+      + pose proof (xv_sels_depth_in y sub Hy). lia.
+      + exact Hn.
+  Qed.
+
+  Lemma xh_Q_all k : xh_Q k.
+  Proof. induction k as [|k IH]; apply xh_step; [left; reflexivity|right; exists k; auto]. Qed.
+
+  (* any selection list written at most M deep: at most (number of fragments) * (M + 1) + M fields on a chain *)
+  Theorem xh_bound sels : (xv_sels_depth sels <= M)%nat -> xh_les (length frags * S M + M) sels.
+  Proof.
+    intros Hd. apply (xh_Q_all (length frags) [] sels M); [|cbn [length]; lia|exact Hd|lia].
+    split; [constructor|]. split; intros m; intros; contradiction.
+  Qed.
+
+  (* ---------- the fields collected from a selection list have lower sub-selections ---------- *)
+  Variable s : schema.
+
+  Lemma xh_go_sub (R : str -> list selection -> option (list xv_cfield)) :
+    (forall p sels L n, xh_les n sels -> R p sels = Some L -> forall c, In c L -> exists n', n = S n' /\ xh_les n' (xf_sub c)) ->
+    forall x p out n, xh_le n x -> xvc_go R s frags p x = Some out ->
+      forall c, In c out -> exists n', n = S n' /\ xh_les n' (xf_sub c).
+  Proof.
+    intros HR x. induction x as [a nm args dirs sub IHx|nm dirs|cnd dirs sub IHx] using selection_ind_nested;
+      intros p out n Hx; cbn [xvc_go].
+    - destruct (xv_lookup_field s p nm); intros [= <-] c Hc; [|destruct Hc]. destruct Hc as [<-|[]]. cbn [xf_sub].
+      exact (xh_field_inv _ _ _ _ _ _ Hx).
+    - destruct (xv_assoc nm frags) as [f|] eqn:Ef; [|intros [= <-] c []].
+      intros E. exact (HR _ _ _ n (xh_spread_inv _ _ _ Hx f Ef) E).
+    - intros E c Hc. destruct (opt_concat_map_some _ _ _ E) as [_ H2]. apply H2 in Hc. destruct Hc as (y & o & Hy & Ey & Hc).
+      rewrite Forall_forall in IHx. exact (IHx y Hy _ o n (xh_les_in _ _ y (xh_inline_inv _ _ _ _ Hx) Hy) Ey c Hc).
+  Qed.
+
+  Lemma xh_collect_sub : forall fuel p sels L n, xh_les n sels -> xv_collect fuel s frags p sels = Some L ->
+    forall c, In c L -> exists n', n = S n' /\ xh_les n' (xf_sub c).
+  Proof.
+    induction fuel as [|fuel IH]; intros p sels L n Hs; [discriminate|]. rewrite xv_collect_S. intros E c Hc.
+    destruct (opt_concat_map_some _ _ _ E) as [_ H2]. apply H2 in Hc. destruct Hc as (x & o & Hx & Ex & Hc).
+    exact (xh_go_sub _ IH x p o n (xh_les_in _ _ x Hs Hx) Ex c Hc).
+  Qed.
+
+  (* ---------- the specification's rule never runs out of fuel ---------- *)
+  Notation cfuel := (S (length frags)).
+
+  Lemma xv_all3_total {A} (f : A -> option bool) l : (forall x, In x l -> f x <> None) -> xv_all3 f l <> None.
+  Proof.
+    induction l as [|x l IH]; intros H; cbn [xv_all3]; [discriminate|].
+    destruct (f x) as [a|] eqn:E; [|exfalso; exact (H x (or_introl eq_refl) E)].
+    destruct (xv_all3 f l) as [b|] eqn:E'; [discriminate|]. exfalso. apply IH; [|reflexivity]. intros y Hy. apply H. right. exact Hy.
+  Qed.
+
+  Lemma xv_pairs3_total {A} (f : A -> A -> option bool) l : (forall x y, In x l -> In y l -> f x y <> None) -> xv_pairs3 f l <> None.
+  Proof.
+    induction l as [|x l IH]; intros H; cbn [xv_pairs3]; [discriminate|].
+    destruct (xv_all3 (f x) l) as [a|] eqn:E.
+    - destruct (xv_pairs3 f l) as [b|] eqn:E'; [discriminate|]. exfalso. apply IH; [|reflexivity].
+      intros y z Hy Hz. apply H; right; assumption.
+    - exfalso. revert E. apply xv_all3_total. intros y Hy. apply H; [left; reflexivity|right; exact Hy].
+  Qed.
+
+  Lemma xh_merged a b n : xh_les n (xf_sub a) -> xh_les n (xf_sub b) ->
+    exists merged, xv_merged cfuel s frags a b = Some merged /\
+      forall c, In c merged -> exists n', n = S n' /\ xh_les n' (xf_sub c).
+  Proof.
+    intros Ha Hb. unfold xv_merged.
+    destruct (xv_collect cfuel s frags (inner_named_type (fd_ty (xf_def a))) (xf_sub a)) as [la|] eqn:Ea;
+      [|exfalso; exact (xf_collect_some s frags Hac _ _ Ea)].
+    destruct (xv_collect cfuel s frags (inner_named_type (fd_ty (xf_def b))) (xf_sub b)) as [lb|] eqn:Eb;
+      [|exfalso; exact (xf_collect_some s frags Hac _ _ Eb)].
+    exists (la ++ lb). split; [reflexivity|]. intros c Hc. apply in_app_or in Hc. destruct Hc as [Hc|Hc].
+    - exact (xh_collect_sub _ _ _ _ n Ha Ea c Hc).
+    - exact (xh_collect_sub _ _ _ _ n Hb Eb c Hc).
+  Qed.
+
+  Lemma xh_same_shape_some : forall fuel n a b, (n < fuel)%nat -> xh_les n (xf_sub a) -> xh_les n (xf_sub b) ->
+    xv_same_shape fuel cfuel s frags a b <> None.
+  Proof.
+    induction fuel as [|fuel IH]; intros n a b Hn Ha Hb; [lia|]. cbn [xv_same_shape].
+    destruct (xv_shape_types s (fd_ty (xf_def a)) (fd_ty (xf_def b))) as [[na nb]|]; [|discriminate].
+    destruct (sch_get_type s na); [|discriminate]. destruct (sch_get_type s nb); [|discriminate].
+    destruct (xv_is_leaf e || xv_is_leaf e0); [discriminate|]. destruct (xv_is_composite e && xv_is_composite e0); [|discriminate].
+    destruct (xh_merged a b n Ha Hb) as (merged & Em & Hsub). rewrite Em. apply xv_pairs3_total. intros x y Hx Hy.
+    destruct (streq (xf_key x) (xf_key y)); [|discriminate].
+    destruct (Hsub x Hx) as (n' & -> & Hx'). destruct (Hsub y Hy) as (n'' & E & Hy'). injection E as <-.
+    apply (IH n'); [lia|exact Hx'|exact Hy'].
+  Qed.
+
+  Lemma xh_can_merge_some : forall fuel n L, (n + 2 <= fuel)%nat -> (forall c, In c L -> xh_les n (xf_sub c)) ->
+    xv_can_merge fuel cfuel s frags L <> None.
+  Proof.
+    induction fuel as [|fuel IH]; intros n L Hn HL; [lia|]. cbn [xv_can_merge]. apply xv_pairs3_total. intros a b Ha Hb.
+    destruct (streq (xf_key a) (xf_key b)); [|discriminate].
+    pose proof (xh_same_shape_some fuel n a b ltac:(lia) (HL a Ha) (HL b Hb)) as Hss.
+    destruct (xv_same_shape fuel cfuel s frags a b) as [r1|]; [|exfalso; apply Hss; reflexivity].
+    destruct (streq (xf_parent a) (xf_parent b) || negb (xv_object_name s (xf_parent a)) || negb (xv_object_name s (xf_parent b)));
+      [|discriminate].
+    destruct (streq (xf_name a) (xf_name b) && xv_args_same (xf_args a) (xf_args b)); [|discriminate].
+    destruct (xh_merged a b n (HL a Ha) (HL b Hb)) as (merged & Em & Hsub). rewrite Em.
+    destruct merged as [|c0 mr] eqn:Emr.
+    - destruct fuel as [|fuel']; [lia|]. cbn [xv_can_merge xv_pairs3 xv_and3]. discriminate.
+    - rewrite <- Emr in *. destruct (Hsub c0 ltac:(rewrite Emr; left; reflexivity)) as (n' & -> & _).
+      assert (Hm : xv_can_merge fuel cfuel s frags merged <> None).
+      { apply (IH n'); [lia|]. intros c Hc. destruct (Hsub c Hc) as (n'' & E & Hc'). injection E as <-. exact Hc'. }
+      destruct (xv_can_merge fuel cfuel s frags merged); [discriminate|exfalso; apply Hm; reflexivity].
+  Qed.
+End Height.
